@@ -141,7 +141,7 @@ func (d *drv) dispatch(i int) {
 // descBase: every Recv / Handle event carries the same fields.
 func descBase(kind string) rec.M {
 	return rec.M{"kind": kind, "from": "", "r": 0, "toc": 0, "b": "", "valid": true, "tks": []string{}, "bad": []string{}, "dup": false,
-		"prevseed": []int{}}
+		"prevseed": []int{}, "bu": []rec.M{}}
 }
 
 // sendShare: VRF share of miner `from` (0-based) for relative round r and timeout count toc, computed from the
@@ -171,10 +171,9 @@ func (d *drv) sendShare(from, r, toc int, prev int64, kind string, dup bool) {
 
 // makeBlock: a block for relative round r generated by miner gen (0-based) with the REAL generateBlock under
 // the generator's identity, carrying `seed`, on top of prev; variant > 0 puts a distinguishing transaction in.
+// Variants 7 (forged previous-block tickets attached), 8 (genuine ones, for a block the node has not seen
+// notarized) and 9 (invalid generator signature) are the byzantine / lagging cases.
 func (d *drv) makeBlock(gen, r int, seed int64, prev *blk, variant int) *blk {
-	if d.t.blocks[prev.name].src != prev.src {
-		rec.Fatal("block table corrupted")
-	}
 	t, mw, mc := d.t, d.mw, d.mc
 	rn := t.base + int64(r)
 	b := block.NewBlock(mc.GetKey(), rn)
@@ -183,11 +182,16 @@ func (d *drv) makeBlock(gen, r int, seed int64, prev *blk, variant int) *blk {
 	b.LatestFinalizedMagicBlockRound = lfmbr.Round
 	b.MinerID = mw.Miners[gen].ID
 	b.SetRoundRandomSeed(seed)
+	if variant == 7 {
+		for j := 1; j < nMiners; j++ {
+			b.PrevBlockVerificationTickets = append(b.PrevBlockVerificationTickets, d.ticket(j, prev, false))
+		}
+	}
 	b.SetPreviousBlock(prev.src)
 	b.Round = rn
 	emd := datastore.GetEntityMetadata("txn")
 	mw.Redis.FlushAll()
-	if variant > 0 {
+	if variant > 0 && variant < 7 {
 		c := mw.Clients[(variant-1)%len(mw.Clients)]
 		nonce := int64(0)
 		if s, err := chain.GetStateById(prev.src.ClientState, c.ID); err == nil && s != nil {
@@ -210,10 +214,15 @@ func (d *drv) makeBlock(gen, r int, seed int64, prev *blk, variant int) *blk {
 	if err != nil {
 		rec.Fatal("block generation for m%d round %d: %v", gen+1, r, err)
 	}
+	if variant == 9 {
+		b.Signature = mw.Miners[gen].Sign(encryption.Hash("not this block " + b.Hash))
+	}
 	if x, ok := t.byHash[b.Hash]; ok {
 		return x // the very same block again (same generator, second, content)
 	}
-	return d.newBlockName(t, b, r, gen, t.seedName(seed), prev.name, variant, b)
+	x := d.newBlockName(t, b, r, gen, t.seedName(seed), prev.name, variant, b)
+	x.pforged, x.badsig = variant == 7, variant == 9
+	return x
 }
 
 // wire: the block as it arrives over the network.
@@ -231,7 +240,9 @@ func (d *drv) wire(x *blk) *block.Block {
 func (d *drv) sendBlock(x *blk, dup bool) {
 	desc := descBase("pb")
 	desc["from"], desc["r"], desc["b"], desc["dup"] = fmt.Sprintf("m%d", x.gen+1), x.r, x.name, dup
+	desc["bu"] = []rec.M{d.attrs(x)}
 	w := d.wire(x)
+	x.sent = true
 	d.recv(desc, func() error {
 		_, err := miner.VerifyBlockHandler(d.senderCtx(x.gen), w)
 		return err
